@@ -1816,7 +1816,9 @@ func c05Overwrite(rc *RuleCtx) {
 		rc.anchor("addChild call / destination child of memfs.(*MemFS).Rename")
 		return
 	}
-	isNChild := func(v ssa.Value) bool { return strip(resolve1(v)) == ssa.Value(nChild) || stripIface(v) == ssa.Value(nChild) }
+	isNChild := func(v ssa.Value) bool {
+		return strip(resolve1(v)) == ssa.Value(nChild) || stripIface(v) == ssa.Value(nChild)
+	}
 	// blocks that release the destination: a delete() call on a value asserted from nChild
 	releases := func(ta *ssa.TypeAssert) bool {
 		rel := false
@@ -2002,26 +2004,63 @@ func c05MkdirOrder(rc *RuleCtx) {
 		rc.bad(cons, create.Pos(), "the path of the directory being created does not come out of the collected slice by an index: the order of creation cannot be established")
 		return
 	}
-	// the index is a loop phi: which way does it move?
-	dir := 0
-	if phi, ok := strip(idx).(*ssa.Phi); ok {
-		for _, e := range phi.Edges {
-			if bo, ok := strip(e).(*ssa.BinOp); ok {
-				if k, isC := constInt(bo.Y); isC && k == 1 && strip(bo.X) == ssa.Value(phi) {
-					switch bo.Op {
-					case token.SUB:
-						dir = -1
-					case token.ADD:
-						dir = 1
+	// which way does the index move from one iteration to the next? A loop counter moves by its step, the key of a
+	// range loop upwards, a loop-invariant value not at all; sums and differences combine (len(ds)-1-i moves down when
+	// i moves up).
+	var move func(v ssa.Value, d int) (int, bool)
+	move = func(v ssa.Value, d int) (int, bool) {
+		v = strip(v)
+		if d > 8 {
+			return 0, false
+		}
+		switch x := v.(type) {
+		case *ssa.Const:
+			return 0, true
+		case *ssa.Phi:
+			for _, e := range x.Edges {
+				if bo, ok := strip(e).(*ssa.BinOp); ok && strip(bo.X) == ssa.Value(x) {
+					if k, isC := constInt(bo.Y); isC && (k == 1 || k == -1) {
+						if (bo.Op == token.ADD) == (k == 1) {
+							return 1, true
+						}
+						if bo.Op == token.ADD || bo.Op == token.SUB {
+							return -1, true
+						}
 					}
 				}
-				if k, isC := constInt(bo.Y); isC && k == -1 && bo.Op == token.ADD && strip(bo.X) == ssa.Value(phi) {
-					dir = -1
+			}
+			return 0, false
+		case *ssa.Extract:
+			if nx, ok := x.Tuple.(*ssa.Next); ok && !nx.IsString {
+				return 1, true
+			}
+		case *ssa.BinOp:
+			l, ok1 := move(x.X, d+1)
+			r, ok2 := move(x.Y, d+1)
+			if ok1 && ok2 {
+				switch x.Op {
+				case token.ADD:
+					return l + r, true
+				case token.SUB:
+					return l - r, true
 				}
 			}
+			return 0, false
+		case *ssa.Call:
+			if bi, ok := x.Call.Value.(*ssa.Builtin); ok && bi.Name() == "len" {
+				return 0, true // the collected slice is not extended inside the creating loop (checked by the loop shape)
+			}
 		}
-	} else {
-		dir = 1 // a range loop
+		return 0, false
+	}
+	dir := 0
+	if m, ok := move(idx, 0); ok {
+		switch {
+		case m > 0:
+			dir = 1
+		case m < 0:
+			dir = -1
+		}
 	}
 	switch dir {
 	case -1:
@@ -2373,8 +2412,12 @@ func c05SameNode(rc *RuleCtx) {
 			continue
 		}
 		// paramIndex does not count the receiver: 0 is the old name, 1 the new one
-		isOld := func(v ssa.Value) bool { return derivesFromParam(stripIface(resolve1(v)), f, 0, 0) && !derivesFromParam(stripIface(resolve1(v)), f, 1, 0) }
-		isNew := func(v ssa.Value) bool { return derivesFromParam(stripIface(resolve1(v)), f, 1, 0) && !derivesFromParam(stripIface(resolve1(v)), f, 0, 0) }
+		isOld := func(v ssa.Value) bool {
+			return derivesFromParam(stripIface(resolve1(v)), f, 0, 0) && !derivesFromParam(stripIface(resolve1(v)), f, 1, 0)
+		}
+		isNew := func(v ssa.Value) bool {
+			return derivesFromParam(stripIface(resolve1(v)), f, 1, 0) && !derivesFromParam(stripIface(resolve1(v)), f, 0, 0)
+		}
 		isNodeVal := func(v ssa.Value) bool {
 			t := v.Type()
 			if _, ok := t.Underlying().(*types.Interface); ok {
@@ -3028,24 +3071,47 @@ func c09ErrFamily(rc *RuleCtx) {
 
 func c16PoolNew(rc *RuleCtx) {
 	n := 0
-	for _, f := range rc.C.srcFuncs("avfs") {
-		if f.Parent() == nil {
-			continue
-		}
-		// a closure stored into the New field of a sync.Pool
-		isNew := false
-		for _, u := range referrersOf2(f) {
-			if st, ok := u.(*ssa.Store); ok {
-				if fa, ok := st.Addr.(*ssa.FieldAddr); ok && fieldName(fa.X.Type(), fa.Field) == "New" && isNamed(fa.X.Type(), "sync", "Pool") {
-					isNew = true
-				}
+	// functions stored into the New field of a sync.Pool: a function literal or a named function
+	type newFn struct {
+		f     *ssa.Function
+		owner *ssa.Function
+	}
+	var news []newFn
+	for _, g := range rc.C.srcFuncs("avfs") {
+		eachInstr(g, func(in ssa.Instruction) {
+			st, ok := in.(*ssa.Store)
+			if !ok {
+				return
 			}
-		}
-		if !isNew {
+			fa, ok := st.Addr.(*ssa.FieldAddr)
+			if !ok || fieldName(fa.X.Type(), fa.Field) != "New" || !isNamed(fa.X.Type(), "sync", "Pool") {
+				return
+			}
+			v := st.Val
+			for {
+				if ct, ok := v.(*ssa.ChangeType); ok {
+					v = ct.X
+					continue
+				}
+				break
+			}
+			switch x := v.(type) {
+			case *ssa.MakeClosure:
+				if fn, ok := x.Fn.(*ssa.Function); ok {
+					news = append(news, newFn{fn, g})
+				}
+			case *ssa.Function:
+				news = append(news, newFn{x, g})
+			}
+		})
+	}
+	for _, nf := range news {
+		f := nf.f
+		if len(f.Blocks) == 0 {
 			continue
 		}
 		n++
-		cons := funcName(f.Parent()) + " pool New allocates"
+		cons := funcName(nf.owner) + " pool New allocates"
 		bad := false
 		for _, r := range returnsOf(f) {
 			for _, rv := range resolveRaw(r.Results[0]) {
@@ -3058,8 +3124,12 @@ func c16PoolNew(rc *RuleCtx) {
 					if x.Parent() != f {
 						bad = true
 					}
-				case *ssa.FreeVar:
+				case *ssa.FreeVar, *ssa.Global:
 					bad = true
+				case *ssa.UnOp:
+					if _, isG := x.X.(*ssa.Global); isG {
+						bad = true
+					}
 				case *ssa.MakeSlice:
 				default:
 					if _, isFree := v.(*ssa.FreeVar); isFree {
@@ -3069,7 +3139,7 @@ func c16PoolNew(rc *RuleCtx) {
 			}
 		}
 		if bad {
-			rc.bad(cons, f.Pos(), "the New function of the pool hands out a variable captured from the enclosing function: every buffer of the pool is the same slice, and two copies in flight overwrite each other's data while both report success")
+			rc.bad(cons, f.Pos(), "the New function of the pool hands out a variable captured from the enclosing function (or a package-level one): every buffer of the pool is the same slice, and two copies in flight overwrite each other's data while both report success")
 		} else {
 			rc.good(cons, f.Pos(), "a slice allocated by the New function itself")
 		}
